@@ -21,16 +21,22 @@ Inductive opoint : Set :=
 | OP_dns_entry          (* dns_naming dns.go ProcessDNS, dnstable.go DNSFind: DNSEntry.Copy() *)
 .
 
-(* transcription of the Go code as found in /repo: does the output point copy? *)
+(* transcription of the Go code: does the output point copy?  As found in /repo the first five shared the
+   tables' storage; repaired by 731d6b1 (toNotification), 2a8e70e (FindByMAC), 12c4150 (IPAddrs),
+   66fd956 (FindRouter, NewOptions.Copy), 1fa6803 (putMDNSCache keeps its own copies). *)
 Definition out_copies (k : opoint) : bool :=
   match k with
-  | OP_notification_mac => false   (* Addr: host.Addr: the MAC slice of the MAC table entry *)
-  | OP_findbymac_mac => false      (* Addr{MAC: v.MACEntry.MAC} *)
-  | OP_ipaddrs_mac => false        (* host.Addr *)
-  | OP_findrouter => false         (* return *r: a struct copy whose slices are the table's *)
-  | OP_mdns_entries => false       (* the same slices are returned and stored in the cache *)
+  | OP_notification_mac => true    (* addr.MAC = CopyMAC(addr.MAC) *)
+  | OP_findbymac_mac => true       (* Addr{MAC: CopyMAC(v.MACEntry.MAC)} *)
+  | OP_ipaddrs_mac => true         (* addr.MAC = CopyMAC(addr.MAC) *)
+  | OP_findrouter => true          (* c.Options = r.Options.Copy(), c.Addr.MAC = CopyMAC(..) *)
+  | OP_mdns_entries => true        (* the cache clones the entries and their MACs *)
   | OP_dns_entry => true           (* deep copy of the record maps *)
   end.
+
+(* the code as found, kept for the refutation theorem *)
+Definition out_copies_as_found (k : opoint) : bool :=
+  match k with OP_dns_entry => true | _ => false end.
 
 Definition heap := list bytes.
 Inductive ov : Type := OCopy (b : bytes) | OShare (cell : nat).
